@@ -167,6 +167,31 @@ def run(prog):
     from .base import verdict_of, errtext
     out.append(inst("RH", "%s:displaced-from-own-slot" % ins.npath, verdict_of(errs_d), ins, None,
                     errtext(errs_d) if errs_d else "the evicted resident is propagated from the slot the new entry takes"))
+    # the probe length the evicted resident continues with: its stored length is its distance from home *at the slot it is
+    # evicted from*; a propagate that resets the length of whatever it is handed is only right for callers that start
+    # at the element's home slot (growth), not for the displacement, which starts mid-sequence
+    seed = propagate_seed(prog)
+    errs_s = []
+    if seed is None:
+        errs_s.append("?how propagate seeds the carried probe length was not recognised")
+    elif seed == "zero":
+        for cs in props:
+            start = strip(cs.args[-1])
+            if not (start[0] == "bin" and start[1] == "Rem" and "hash" in show(start[2])):
+                errs_s.append("propagate restarts the probe length of the element it is handed at 0, but the evicted resident is "
+                              "handed in at slot %s, which is not its home slot: it is stored with a length smaller than its "
+                              "distance from home, a later lookup of it stops early and the node is allocated a second time"
+                              % show(start)[:30])
+    else:
+        for cs in props:
+            el = strip(cs.args[-2]) if len(cs.args) >= 2 else None
+            while el is not None and isinstance(el, tuple) and el and (mir.is_call(el, "clone") or el[0] in ("ref", "deref")):
+                el = strip(el[2][0]) if el[0] == "call" else strip(el[1])
+            if el is not None and mir.is_call(el, "new") and len(el[2]) == 3 and strip(el[2][2])[0] == "const":
+                errs_s.append("the evicted resident is rebuilt with the constant probe length %s before it is propagated from the "
+                              "middle of its sequence" % strip(el[2][2])[2])
+    out.append(inst("RH", "%s:displaced-keeps-length" % ins.npath, verdict_of(errs_s), ins, None,
+                    errtext(errs_s) if errs_s else "the evicted resident continues with the probe length it was stored with"))
     out.append(inst("RH", "%s:home-after-grow" % ins.npath, VIOLATION if errs else OK, ins, None,
                     "; ".join(sorted(set(errs))) if errs else "home slot is computed after the growth check"))
     ok = fi["cmp"] == fg["cmp"] and fi["home"] == fg["home"] and fi["step"] == fg["step"]
@@ -223,10 +248,69 @@ def run(prog):
             pass
     if not homes:
         errs.append("no re-insertion found")
+    if homes and propagate_start(prog) == "after":
+        errs.append("propagate begins probing *behind* the slot it is given (it takes the element to be evicted from that slot), "
+                    "but grow hands every element in at its home slot: after a growth no element sits at its home slot, a lookup "
+                    "finds the home slot empty and the node is allocated a second time")
     errs += old_capacity_uses(gr)
     out.append(inst("RH", "%s:rehome" % gr.npath, VIOLATION if errs else OK, gr, None,
                     "; ".join(errs) if errs else "re-homes every element at hash % cap"))
     return out
+
+
+def propagate_seed(prog):
+    """how the free function `propagate` seeds the probe length of the element it carries:
+    'carried' (the handed element's own psl), 'zero' (reset to 0 whatever was handed in), or None (not recognised)"""
+    pr = [f for f in prog.find(name="propagate", path_contains="bump_table", unit="rsdd-lib") if f.impl_self is None]
+    if len(pr) != 1:
+        return None
+    pr = pr[0]
+    ksea, isea, usea = named_mu(pr, "searcher")
+    if ksea is None or isea is None:
+        return None
+    t = strip(isea)
+    while isinstance(t, tuple) and t and (mir.is_call(t, "clone") or t[0] in ("ref", "deref")):
+        t = strip(t[2][0]) if t[0] == "call" else strip(t[1])
+    if isinstance(t, tuple) and t and t[0] == "param":
+        return "carried"
+    if isinstance(t, tuple) and t and t[0] == "agg":
+        adt = prog.adts.get("backing_store::bump_table::HashTableElement")
+        names = [f["name"] for f in adt["variants"][0]["fields"]] if adt else []
+        if "psl" in names and len(t[4]) == len(names):
+            v = strip(t[4][names.index("psl")])
+            if v[0] == "const" and v[2] == "0":
+                return "zero"
+            if v[0] == "field" and v[2] == "psl" and strip(v[1])[0] == "param":
+                return "carried"
+    if mir.is_call(t, "new") and len(t[2]) == 3:
+        v = strip(t[2][2])
+        if v[0] == "const" and v[2] == "0":
+            return "zero"
+        if v[0] == "field" and v[2] == "psl" and strip(v[1])[0] == "param":
+            return "carried"
+    return None
+
+
+def propagate_start(prog):
+    """where `propagate` begins probing relative to the slot it is given: 'at' (that slot) or 'after' (the next one, i.e.
+    it assumes the element is being evicted from the given slot), None when not recognised"""
+    pr = [f for f in prog.find(name="propagate", path_contains="bump_table", unit="rsdd-lib") if f.impl_self is None]
+    if len(pr) != 1:
+        return None
+    pr = pr[0]
+    kpos, ipos, upos = named_mu(pr, "pos")
+    if kpos is None or ipos is None:
+        return None
+    t = strip(ipos)
+    if t[0] == "param":
+        return "at"
+    if t[0] == "bin" and t[1] == "Rem":
+        a = strip(t[2])
+        if a[0] == "field" and a[2] == "0":
+            a = strip(a[1])
+        if a[0] == "bin" and a[1].startswith("Add") and strip(a[2])[0] == "param" and strip(a[3])[0] == "const" and strip(a[3])[2] == "1":
+            return "after"
+    return None
 
 
 def _is_cap(pl):
